@@ -62,13 +62,16 @@ with fc_ok : bool -> model -> Prop :=
 | FcStr ts s :
     s <> [] -> valid_text s -> contains bsNlc (flat_map (hy_esc W (py_quote s)) s) = false -> fc_ok ts (MStr s None)
 | FcField ts conv x0 spec :
-    ok x0 -> N.eqb (hd 0 (mrepr W x0)) c_lc = false -> spec_ok spec -> fc_ok ts (MNode (KFComp conv ts) (x0 :: spec))
-(* a format spec: nothing, plain text, or one nested field *)
+    ok x0 -> spec_ok spec -> fc_ok ts (MNode (KFComp conv ts) (x0 :: spec))
+(* a format spec: plain text and nested fields in any number, no two strings side by side *)
 with spec_ok : list model -> Prop :=
-| SpNone : spec_ok []
-| SpStr sp : sp <> [] -> forallb plain_char sp = true -> spec_ok [MStr sp None]
-| SpField conv x0 spec :
-    fc_ok false (MNode (KFComp conv false) (x0 :: spec)) -> spec_ok [MNode (KFComp conv false) (x0 :: spec)].
+| SpNil : spec_ok []
+| SpStr sp rest :
+    sp <> [] -> forallb plain_char sp = true -> spec_ok rest ->
+    match rest with MStr _ _ :: _ => False | _ => True end -> spec_ok (MStr sp None :: rest)
+| SpField conv x0 spec rest :
+    fc_ok false (MNode (KFComp conv false) (x0 :: spec)) -> spec_ok rest ->
+    spec_ok (MNode (KFComp conv false) (x0 :: spec) :: rest).
 
 Notation item := (item_ok W (mrepr W)).
 
@@ -256,7 +259,7 @@ Qed.
 (* what is shown of a replacement-field node: it denotes an f-string part that is well formed for the reader,
    is rendered as hy-repr prints the node, and is read back as the node *)
 Definition field_facts (m : model) : Prop :=
-  part_ok W (part_of W m) /\ render (part_of W m) = mrepr W m /\ part_comps (part_of W m) = [clear_ts m].
+  part_ok W (part_of W false m) /\ render (part_of W false m) = mrepr W m /\ part_comps (part_of W false m) = [clear_ts m].
 
 Definition field_part (m : model) : Prop :=
   match m with
@@ -272,59 +275,96 @@ Proof.
   destruct tail as [|c r]; [destruct Ht|]. cbn in *. destruct Ht as [H| ->]; [left; exact H|right; reflexivity].
 Qed.
 
-Lemma field_facts_intro ts conv x0 spec :
-  item x0 -> N.eqb (hd 0 (mrepr W x0)) c_lc = false -> spec_ok spec ->
-  (forall cv y sp, spec = [MNode (KFComp cv false) (y :: sp)] -> field_facts (MNode (KFComp cv false) (y :: sp))) ->
-  field_facts (MNode (KFComp conv ts) (x0 :: spec)).
-Proof.
-  intros Hx Hh Hs Hnested. pose proof (item_expr_reads x0 Hx) as Her.
-  destruct Hx as [(c & t & Ex & Hc1 & _) _].
-  assert (Ht : match mrepr W x0 with c :: _ => is_ws c = false | [] => False end) by (rewrite Ex; exact Hc1).
-  destruct Hs as [|sp Hne Hpl|cv y sp Hfc].
-  - (* no spec *)
-    unfold field_facts. cbn [part_of is_nil negb]. split; [|split].
-    + apply part_ok_field. destruct conv; cbn [app];
-        refine (conj eq_refl (conj eq_refl (conj I (conj _ (conj Ht (conj Hh (conj Her (conj _ (conj _ I))))))))); try reflexivity; try discriminate; try (intros _; reflexivity).
-      intros _. repeat split.
-    + cbn [mrepr node_repr map render]. unfold fcomp_repr. cbn [nth dbg_text conv_text]. destruct conv; cbn [app]; rewrite <- ?app_assoc; reflexivity.
-    + rewrite part_comps_field. destruct conv; reflexivity.
-  - (* plain text *)
-    unfold field_facts. cbn [part_of is_nil negb]. split; [|split].
-    + apply part_ok_field. destruct conv; cbn [app];
-        refine (conj eq_refl (conj eq_refl (conj I (conj _ (conj Ht (conj Hh (conj Her (conj _ (conj _ _))))))))); try reflexivity; try discriminate.
-      all: cbn [parts_ok lit_ok]; repeat split; try exact Hpl.
-    + cbn [mrepr node_repr map render]. unfold fcomp_repr. cbn [nth dbg_text conv_text map concat render app]. rewrite app_nil_r.
-      destruct conv; cbn [app]; rewrite <- ?app_assoc; reflexivity.
-    + rewrite part_comps_field. rewrite comps_from_lit, comps_from_nil. cbn [app]. unfold flush.
-      destruct sp; [congruence|]. destruct conv; reflexivity.
-  - (* one nested field *)
-    destruct (Hnested cv y sp eq_refl) as (P1 & P2 & P3).
-    unfold field_facts. cbn [is_nil negb].
-    assert (Epart : part_of W (MNode (KFComp conv ts) [x0; MNode (KFComp cv false) (y :: sp)])
-                    = PField [] x0 (mrepr W x0) [ch_space] None
-                             (match conv with Some c0 => Some (c0, [ch_space]) | None => None end) true
-                             [part_of W (MNode (KFComp cv false) (y :: sp))]).
-    { cbn [part_of is_nil negb]. destruct conv; reflexivity. }
-    rewrite Epart. split; [|split].
-    + apply part_ok_field. cbn [app].
-      refine (conj eq_refl (conj eq_refl (conj I (conj _ (conj Ht (conj Hh (conj Her (conj _ (conj _ _))))))))); try discriminate.
-      * destruct conv; [reflexivity|exact I].
-      * change (part_of W (MNode (KFComp cv false) (y :: sp))) with (part_of W (MNode (KFComp cv false) (y :: sp))).
-        destruct (part_of W (MNode (KFComp cv false) (y :: sp))) eqn:Ep; [cbn [part_of] in Ep; discriminate|].
-        cbn [parts_ok]. split; [reflexivity|split; [exact P1|exact I]].
-    + cbn [render map concat]. rewrite app_nil_r, P2. cbn [mrepr node_repr map]. unfold fcomp_repr.
-      cbn [nth dbg_text conv_text app]. destruct conv; cbn [app]; rewrite <- ?app_assoc; reflexivity.
-    + rewrite part_comps_field.
-      assert (Ec : comps_from [] [part_of W (MNode (KFComp cv false) (y :: sp))] = [MNode (KFComp cv false) (y :: sp)]).
-      { destruct (part_of W (MNode (KFComp cv false) (y :: sp))) eqn:Ep; [cbn [part_of] in Ep; discriminate|].
-        rewrite comps_from_field, comps_from_nil, P3. reflexivity. }
-      rewrite Ec. destruct conv; reflexivity.
-Qed.
-
-(* ---------------------------------------------------------------- a whole printed f-string *)
 Definition comp_facts (c : model) : Prop :=
   match c with MNode (KFComp _ _) (_ :: _) => field_facts c | _ => True end.
 
+Lemma plain_no_bsN K : forallb plain_char K = true -> ends_bsN K = false.
+Proof.
+  intros H. unfold ends_bsN. destruct (starts_with [c_N; c_bs] (rev K)) eqn:E; [|reflexivity]. exfalso.
+  apply starts_with_spec in E as [r Er].
+  assert (Hin : In c_bs K) by (apply in_rev; rewrite Er; right; left; reflexivity).
+  rewrite forallb_forall in H. specialize (H c_bs Hin). discriminate.
+Qed.
+
+Lemma part_of_field_flag b conv ts x0 spec :
+  part_of W b (MNode (KFComp conv ts) (x0 :: spec)) = part_of W false (MNode (KFComp conv ts) (x0 :: spec)).
+Proof. reflexivity. Qed.
+
+Lemma part_of_is_field b conv ts x0 spec :
+  exists a c d e f g h i, part_of W b (MNode (KFComp conv ts) (x0 :: spec)) = PField a c d e f g h i.
+Proof. cbn [part_of]. repeat eexists. Qed.
+
+(* the parts of a format spec are well formed, are rendered as the printer prints the spec, and are read back as the spec *)
+Lemma spec_parts spec : spec_ok spec -> Forall comp_facts spec ->
+  parts_ok W true [] (map (part_of W true) spec)
+  /\ render_all (map (part_of W true) spec) = spec_text spec (map (mrepr W) spec)
+  /\ comps_from [] (map (part_of W true) spec) = spec.
+Proof.
+  induction 1 as [|sp rest Hne Hpl Hrest IH Hadj|conv x0 sp0 rest Hfc Hrest IH]; intros HF.
+  - repeat split.
+  - inversion HF as [|? ? _ HF']; subst. destruct (IH HF') as (P1 & P2 & P3).
+    cbn [map part_of]. unfold render_all, spec_text in *. cbn [map combine concat fst snd]. rewrite P2.
+    split; [|split; [reflexivity|]].
+    + cbn [parts_ok lit_ok]. split; [repeat split; exact Hpl|]. cbn [app].
+      destruct rest as [|d r']; [exact I|]. destruct d as [s|s|z|f|a b|s br|b|k ms]; try (inversion Hrest; fail).
+      { destruct Hadj. }
+      inversion Hrest as [| |cv y sp1 r0 Hf0 Hr0]; subst.
+      cbn [map] in P1 |- *. destruct (part_of_is_field true cv false y sp1) as (a & c & d & e & f & g & h & i & Ep).
+      rewrite Ep in P1 |- *. cbn [parts_ok] in P1 |- *. destruct P1 as (_ & Q1 & Q2).
+      split; [apply plain_no_bsN; exact Hpl|split; assumption].
+    + rewrite comps_from_lit. cbn [app].
+      destruct rest as [|d r']; [rewrite comps_from_nil; unfold flush; destruct sp; [congruence|reflexivity]|].
+      destruct d as [s|s|z|f|a b|s br|b|k ms]; try (inversion Hrest; fail).
+      { destruct Hadj. }
+      inversion Hrest as [| |cv y sp1 r0 Hf0 Hr0]; subst.
+      cbn [map] in P3 |- *. destruct (part_of_is_field true cv false y sp1) as (a & c & d & e & f & g & h & i & Ep).
+      rewrite Ep in P3 |- *. rewrite comps_from_field in P3 |- *. cbn [flush is_str_empty app] in P3.
+      unfold flush at 1. destruct sp as [|c1 s1]; [congruence|]. cbn [is_str_empty app]. f_equal. exact P3.
+  - inversion HF as [|? ? Hcf HF']; subst. destruct (IH HF') as (P1 & P2 & P3).
+    cbn [comp_facts] in Hcf. destruct Hcf as (F1 & F2 & F3).
+    cbn [map]. rewrite part_of_field_flag.
+    destruct (part_of_is_field false conv false x0 sp0) as (a & c & d & e & f & g & h & i & Ep).
+    unfold render_all, spec_text in *. cbn [map combine concat fst snd]. rewrite P2, <- F2.
+    rewrite Ep in F1, F3 |- *. split; [|split; [reflexivity|]].
+    + cbn [parts_ok]. split; [reflexivity|split; assumption].
+    + rewrite comps_from_field, F3, P3. reflexivity.
+Qed.
+
+Lemma field_facts_intro ts conv x0 spec :
+  item x0 -> spec_ok spec -> Forall comp_facts spec -> field_facts (MNode (KFComp conv ts) (x0 :: spec)).
+Proof.
+  intros Hx Hs HF. pose proof (item_expr_reads x0 Hx) as Her.
+  destruct (spec_parts spec Hs HF) as (P1 & P2 & P3).
+  destruct Hx as [(c & t & Ex & Hc1 & _) _].
+  assert (Ht : match mrepr W x0 with c :: _ => is_ws c = false | [] => False end) by (rewrite Ex; exact Hc1).
+  set (ws1 := if starts_with [c_lc] (mrepr W x0) then [ch_space] else []).
+  assert (Hw1 : all_ws ws1) by (unfold ws1; destruct (starts_with [c_lc] (mrepr W x0)); reflexivity).
+  assert (Hh : N.eqb (hd 0 (ws1 ++ mrepr W x0)) c_lc = false).
+  { unfold ws1. rewrite Ex. cbn [starts_with]. destruct (N.eqb c_lc c) eqn:E; cbn [andb app hd]; [reflexivity|].
+    rewrite N.eqb_sym. exact E. }
+  unfold field_facts. cbn [part_of]. fold ws1. split; [|split].
+  - apply part_ok_field.
+    refine (conj Hw1 (conj _ (conj I (conj _ (conj Ht (conj Hh (conj Her (conj _ (conj _ P1))))))))).
+    + destruct conv; [reflexivity|]. destruct spec; reflexivity.
+    + destruct conv; [|exact I]. destruct spec; reflexivity.
+    + destruct conv; [discriminate|]. destruct spec; [intros _; repeat split|discriminate].
+    + destruct spec; [reflexivity|discriminate].
+  - cbn [render]. fold (render_all (map (part_of W true) spec)). rewrite P2.
+    cbn [mrepr node_repr map]. unfold fcomp_repr. cbn [nth tl]. fold ws1.
+    destruct spec as [|c2 spec']; destruct conv; cbn [is_nil negb dbg_text conv_text app]; rewrite <- ?app_assoc; reflexivity.
+  - rewrite part_comps_field. rewrite P3. unfold field_conv, dbg_comp.
+    destruct spec as [|c2 spec']; destruct conv; reflexivity.
+Qed.
+
+Lemma spec_comp_facts spec : spec_ok spec -> Forall both spec -> Forall comp_facts spec.
+Proof.
+  induction 1 as [|sp rest _ _ _ IH _|conv x0 sp0 rest Hfc _ IH]; intros HB; [constructor| |];
+    inversion HB as [|? ? [_ Hfp] HB']; subst; (constructor; [|apply IH; exact HB']).
+  - exact I.
+  - cbn [comp_facts]. cbn [field_part] in Hfp. apply Hfp. exact Hfc.
+Qed.
+
+(* ---------------------------------------------------------------- a whole printed f-string *)
 Lemma fc_ok_shape ts c : fc_ok ts c ->
   (exists s, c = MStr s None /\ s <> [] /\ valid_text s /\ contains bsNlc (flat_map (hy_esc W (py_quote s)) s) = false)
   \/ (exists conv x0 spec, c = MNode (KFComp conv ts) (x0 :: spec)).
@@ -338,7 +378,7 @@ Proof.
 Qed.
 
 Lemma fstr_parts ts comps : Forall (fc_ok ts) comps -> fseq_ok W comps -> Forall comp_facts comps ->
-  parts_ok W false [] (map (part_of W) comps) /\ comps_from [] (map (part_of W) comps) = map clear_ts comps.
+  parts_ok W false [] (map (part_of W false) comps) /\ comps_from [] (map (part_of W false) comps) = map clear_ts comps.
 Proof.
   induction comps as [|c r IH]; intros HF Hs Hc; [split; [exact I|reflexivity]|].
   inversion HF as [|? ? Hfc HF']; subst. inversion Hc as [|? ? Hcf Hc']; subst.
@@ -350,8 +390,8 @@ Proof.
     + inversion HF' as [|? ? Hfd _]; subst.
       destruct (fc_ok_shape ts d Hfd) as [(s' & -> & _)|(conv & x0 & spec & ->)]; [destruct Hs|].
       destruct Hs as [Hends Hs]. destruct (IH HF' Hs Hc') as [Hp Hcm].
-      cbn [map] in Hp, Hcm |- *. change (part_of W (MStr s None)) with (lit_part W s). unfold lit_part.
-      remember (part_of W (MNode (KFComp conv ts) (x0 :: spec))) as pf eqn:Epf.
+      cbn [map] in Hp, Hcm |- *. change (part_of W false (MStr s None)) with (lit_part W s). unfold lit_part.
+      remember (part_of W false (MNode (KFComp conv ts) (x0 :: spec))) as pf eqn:Epf.
       assert (Hpf : exists a b c0 d0 e f g h, pf = PField a b c0 d0 e f g h).
       { subst pf. cbn [part_of]. repeat eexists. }
       destruct Hpf as (a & b & c0 & d0 & e & f & g & h & ->).
@@ -362,7 +402,7 @@ Proof.
   - (* a field *)
     cbn [comp_facts] in Hcf. destruct Hcf as (P1 & P2 & P3).
     assert (Hs' : fseq_ok W r) by exact Hs. destruct (IH HF' Hs' Hc') as [Hp Hcm].
-    cbn [map]. remember (part_of W (MNode (KFComp conv ts) (x0 :: spec))) as pf eqn:Epf.
+    cbn [map]. remember (part_of W false (MNode (KFComp conv ts) (x0 :: spec))) as pf eqn:Epf.
     assert (Hpf : exists a b c0 d0 e f g h, pf = PField a b c0 d0 e f g h).
     { subst pf. cbn [part_of]. repeat eexists. }
     destruct Hpf as (a & b & c0 & d0 & e & f & g & h & ->).
@@ -373,7 +413,7 @@ Qed.
 Lemma fstr_render ts comps : Forall (fc_ok ts) comps -> Forall comp_facts comps ->
   concat (map (fun mr => if is_mstr (fst mr) then double_braces (cut_1_m1 (snd mr)) else snd mr)
               (combine comps (map (mrepr W) comps)))
-  = render_all (map (part_of W) comps).
+  = render_all (map (part_of W false) comps).
 Proof.
   induction comps as [|c r IH]; intros HF Hc; [reflexivity|].
   inversion HF as [|? ? Hfc HF']; subst. inversion Hc as [|? ? Hcf Hc']; subst.
@@ -399,13 +439,13 @@ Proof.
   intros HF Hs Hc. destruct (fstr_parts ts comps HF Hs Hc) as [Hp Hcm].
   pose proof (fstr_render ts comps HF Hc) as Hr. destruct (fstr_restore ts comps HF) as [Hrest Hbr].
   assert (Er : mrepr W (MNode (KFStr None ts) comps)
-               = (if ts then 116 else 102) :: c_dq :: render_all (map (part_of W) comps) ++ [c_dq]).
+               = (if ts then 116 else 102) :: c_dq :: render_all (map (part_of W false) comps) ++ [c_dq]).
   { cbn [mrepr node_repr]. unfold fstr_repr. rewrite Hr. reflexivity. }
   split.
-  { exists (if ts then 116 else 102), (c_dq :: render_all (map (part_of W) comps) ++ [c_dq]).
+  { exists (if ts then 116 else 102), (c_dq :: render_all (map (part_of W false) comps) ++ [c_dq]).
     split; [exact Er|]. destruct ts; split; reflexivity. }
   intros rest Hrest0. rewrite Er.
-  destruct (read_rendered W false (map (part_of W) comps) [] rest Hp) as [_ [n Hn]].
+  destruct (read_rendered W false (map (part_of W false) comps) [] rest Hp) as [_ [n Hn]].
   cbn [cl_of st_of closer_of rev app] in Hn. rewrite Hcm in Hn.
   apply (reads_intro W (S n)); [|discriminate]. rewrite rd_S. unfold form_body.
   cbn [app]. rewrite skip_ws_nonws by (destruct ts; reflexivity).
@@ -448,7 +488,7 @@ Proof.
     apply (item_of_form _ c_dq (flat_map (hy_esc W (py_quote s)) s ++ [c_dq])); try exact E; try reflexivity.
     intros rec rest Hr. apply read_hy_str; assumption.
   - (* bracket string *)
-    apply (item_of_form _ c_hash (c_lb :: d ++ [c_lb] ++ s ++ [c_rb] ++ d ++ [c_rb])); try reflexivity.
+    apply (item_of_form _ c_hash (c_lb :: d ++ [c_lb] ++ lead_nl s ++ s ++ [c_rb] ++ d ++ [c_rb])); try reflexivity.
     intros rec rest Hr. apply read_bracket_string; assumption.
   - (* bytes *)
     pose proof (hy_bytes_eq b) as E.
@@ -534,14 +574,12 @@ Proof.
     apply fstr_item; try assumption.
     clear - IH Hfc. induction Hfc as [|c r Hc _ IHr]; [constructor|]. inversion IH as [|? ? [_ Hfp] IH']; subst.
     constructor; [|apply IHr; exact IH'].
-    destruct Hc as [ts s|ts conv x0 spec Hx Hh Hsp]; [exact I|]. cbn [comp_facts]. apply Hfp. constructor; assumption.
+    destruct Hc as [ts s|ts conv x0 spec Hx Hsp]; [exact I|]. cbn [comp_facts]. apply Hfp. constructor; assumption.
   - (* a replacement-field node: the facts used above *)
     destruct k as [| | | | |br ts|conv ts]; try exact I. destruct ms as [|x0 spec]; [exact I|].
-    cbn [field_part]. intros Hfc. inversion Hfc as [|? ? ? ? Hx Hh Hsp]; subst.
+    cbn [field_part]. intros Hfc. inversion Hfc as [|? ? ? ? Hx Hsp]; subst.
     inversion IH as [|? ? [Hxi _] IHspec]; subst.
-    apply field_facts_intro; [apply Hxi; exact Hx|exact Hh|exact Hsp|].
-    intros cv y sp E. subst spec. inversion IHspec as [|? ? [_ Hfp] _]; subst. cbn [field_part] in Hfp. apply Hfp.
-    inversion Hsp; subst. assumption.
+    apply field_facts_intro; [apply Hxi; exact Hx|exact Hsp|apply spec_comp_facts; assumption].
 Qed.
 
 Theorem ok_item : forall m, ok m -> item m.
